@@ -117,6 +117,23 @@ def run_case(case, drv):
     no_eps = all(b for _, b in g["prods"])
     unit_cycle = any(a != b and (b, a) in {tuple(p) for p in cl["unitPairs"]} for a, b in cl["unitPairs"]) or \
         any(len(b) == 1 and b[0] == ["v", h] for h, b in g["prods"])
+    # step-faithful tie of the backtracking search (any grammar; the model's fuel-out stands for RecursionError)
+    rd0 = RecursiveDecentParser(cfg)
+    tie_words = [w for w in words if len(w) <= 2][:5]
+    for left in (True, False):
+        mt = drv.call("cfg.recDescent", G=g, words=tie_words, left=left, fuel=14)
+        for w, m_ in zip(tie_words, mt):
+            if m_ == "fuel":
+                res.tag("rd_tie_fuel")
+                continue
+            got = outcome(lambda w=w, left=left: tree_json(rd0.get_parse_tree(w, left)), limit=2.0)
+            res.corr += 1
+            want_ = ("exc", "NotParsableException") if m_ is None else ("ok", m_)
+            if got != want_:
+                res.corr_break("rd.get_parse_tree", "result differs from the faithful search model",
+                               detail={"word": w, "left": left, "impl": str(got), "model": m_})
+                break
+            res.tag("rd_tie")
     if no_eps and not unit_cycle:
         res.tag("rd_class")
         rd = RecursiveDecentParser(cfg)
